@@ -10,7 +10,9 @@ Local Open Scope Z_scope.
 (** ** observations as rendered by the Go driver *)
 Inductive omedia := OM (m : option media) | OMOther (s : string).
 Inductive ogcode := OG (g : gcode) | OGOther (s : string).
-Record ohdrs := { oh_loc : option string; oh_www : option string; oh_ct : omedia }.
+(** [oh_wf]: the body (if any) is well-formed for the Content-Type it was sent with
+    (valid JSON / parseable XML / <p>..</p> / anything for text/plain), as judged by the driver *)
+Record ohdrs := { oh_loc : option string; oh_www : option string; oh_ct : omedia; oh_wf : bool }.
 
 Inductive ohttp :=
 | OHttp (status : Z) (h : ohdrs) (body marker : bool)
@@ -44,7 +46,8 @@ Definition to_scenario (s : oscenario) (e : err) : scenario :=
 (** ** correspondence *)
 Definition hdrs_match (m : hdrs) (o : ohdrs) : bool :=
   option_eqb String.eqb (h_location m) (oh_loc o) && option_eqb String.eqb (h_www m) (oh_www o) &&
-  match oh_ct o with OM x => option_eqb media_eqb (h_ctype m) x | OMOther _ => false end.
+  match oh_ct o with OM x => option_eqb media_eqb (h_ctype m) x | OMOther _ => false end &&
+  oh_wf o.
 
 Definition gcode_match (m : gcode) (o : ogcode) : bool :=
   match o with OG g => gcode_eqb m g | OGOther _ => false end.
@@ -94,7 +97,7 @@ Definition pair_eqb (a b : string * string) : bool := String.eqb (fst a) (fst b)
 Definition model_up (s : oscenario) (e : err) : list (string * string) :=
   match s with SHandled m => hd_upstream (mech_exec m e) | _ => [] end.
 
-Definition corr (k : case) : bool :=
+Definition corr (fixed : bool) (k : case) : bool :=
   let c := k_cfg k in let o := k_or k in let e := k_err k in
   let sc := to_scenario (k_sc k) e in
   list_eqb pair_eqb (model_up (k_sc k) e) (k_up k) &&
@@ -102,9 +105,9 @@ Definition corr (k : case) : bool :=
   as_eqb (as_redirect e) (k_as k) &&
   hresp_match (http_handle c o e no_hdrs) (k_http k) &&
   ghandle_match (grpc_handle c o e) (k_grpc k) &&
-  hfinal_match (http_respond c o sc) (k_dec k) &&
-  hfinal_match (http_respond c o sc) (k_prx k) &&
-  gfinal_match (grpc_respond c o sc) (k_env k).
+  hfinal_match (http_respond_f fixed c o sc) (k_dec k) &&
+  hfinal_match (http_respond_f fixed c o sc) (k_prx k) &&
+  gfinal_match (grpc_respond_f fixed c o sc) (k_env k).
 
 (** ** the property on the observations *)
 
@@ -129,7 +132,7 @@ Definition http_answer_ok (c : cfg) (o : oracle) (e : err) (r : ohttp) : bool :=
       | OM None => negb b
       | OM (Some m) => c_verbose c && b && option_eqb media_eqb (o_neg_http o) (Some m)
       | OMOther _ => false
-      end
+      end && oh_wf h
   | _ => false
   end.
 
@@ -145,7 +148,7 @@ Definition grpc_answer_ok (c : cfg) (o : oracle) (e : err) (r : ogrpc) : bool :=
       | OM (Some m) => c_verbose c &&
                        match o_neg_grpc o with Some m' => media_eqb m m' | None => media_eqb m Html end
       | OMOther _ => false
-      end
+      end && oh_wf h
   | _ => false
   end.
 
@@ -214,15 +217,17 @@ Definition g_F2 (k : case) : bool :=
   | SPanic b => guard_F2 c (recovered (if b then Some e else None))
   end.
 
-Definition check (k : case) : verdict :=
-  {| v_corr := corr k; v_prop := prop k;
-     v_guards := guards [(1, g_F1 k); (2, g_F2 k)] |}.
+(** [impl_fixed]: which variant the implementation is expected to be with respect
+    to finding C12-F1 (true once fixes/C12-F1.diff is applied as a fix: commit) *)
+Definition check (impl_fixed : bool) (k : case) : verdict :=
+  {| v_corr := corr impl_fixed k; v_prop := prop k;
+     v_guards := guards [(1, g_F1 k && negb impl_fixed); (2, g_F2 k)] |}.
 
 (* constructors with short names for the generated case files *)
 Definition mkcfg v a z m p n i :=
   {| c_verbose := v; ov_authn := a; ov_authz := z; ov_comm := m; ov_precond := p; ov_norule := n; ov_internal := i |}.
 Definition mkor h g j x p := {| o_neg_http := h; o_neg_grpc := g; o_json_ne := j; o_xml_ne := x; o_plain_ne := p |}.
-Definition hd l w c := {| oh_loc := l; oh_www := w; oh_ct := c |}.
+Definition hd l w c f := {| oh_loc := l; oh_www := w; oh_ct := c; oh_wf := f |}.
 Definition mkcase c o e s i a h g d p v u :=
   {| k_cfg := c; k_or := o; k_err := e; k_sc := s; k_is := i; k_as := a; k_http := h; k_grpc := g;
      k_dec := d; k_prx := p; k_env := v; k_up := u |}.
